@@ -59,6 +59,7 @@ type cworld struct {
 	evicted       map[string]bool  // keys whose version map was dropped through StateCache.Remove: no must-hit afterwards
 	usedLeaves    []*util.LeafNode // leaf objects handed to the cache earlier (C07): re-used with a payload edited in place
 	reusedObjects int
+	views         map[string]*statecache.QueryBlockCache // views on blocks opened by earlier lookups
 }
 
 func newWorld(r *rand.Rand, nkeys int, mutable bool) *cworld {
@@ -495,7 +496,19 @@ func (w *cworld) getState(c *fw.Ctx, key, hash string, query bool) bool {
 	var got statecache.Value
 	var ok bool
 	if query {
-		got, ok = statecache.NewQueryBlockCache(w.sc, hash).Get(key)
+		// a view on a block is a window, not a snapshot: half of the lookups go through a view that was opened earlier
+		// (possibly before the block or its ancestors were committed) and has answered before
+		if w.views == nil {
+			w.views = map[string]*statecache.QueryBlockCache{}
+		}
+		qv := w.views[hash]
+		if qv == nil || w.r.Intn(2) == 0 {
+			qv = statecache.NewQueryBlockCache(w.sc, hash)
+			w.views[hash] = qv
+		} else {
+			c.Count("lookups_through_a_view_opened_earlier", 1)
+		}
+		got, ok = qv.Get(key)
 	} else {
 		got, ok = w.sc.Get(key, hash)
 	}
